@@ -46,10 +46,31 @@ const (
 	pcConst
 	pcRandom
 	pcUnderBase
+	pcDestOrDir // a destination path or one of its parent directories (the join of DEST and DESTDIR)
 )
 
+const pcBottom pathClass = -1 // nothing known yet (a recursion in progress): the identity of joinPC
+
+// joinPC joins the classes of two values that can both arrive at one place.
+func joinPC(a, b pathClass) pathClass {
+	switch {
+	case a == pcBottom:
+		return b
+	case b == pcBottom || a == b:
+		return a
+	}
+	isD := func(c pathClass) bool { return c == pcDest || c == pcDestDir || c == pcDestOrDir }
+	if isD(a) && isD(b) {
+		return pcDestOrDir
+	}
+	return pcOther
+}
+
 func (c pathClass) String() string {
-	return [...]string{"OTHER", "BASE", "STAGINGDIR", "STAGING", "DEST", "DESTDIR", "RAWKEY", "CONST", "RANDOM", "UNDERBASE"}[c]
+	if c == pcBottom {
+		return "UNKNOWN"
+	}
+	return [...]string{"OTHER", "BASE", "STAGINGDIR", "STAGING", "DEST", "DESTDIR", "RAWKEY", "CONST", "RANDOM", "UNDERBASE", "DEST-OR-DIR"}[c]
 }
 
 type fsFacts struct {
@@ -60,10 +81,12 @@ type fsFacts struct {
 	destSlots map[*ssa.Alloc]bool    // local slices that hold [basepath, shards of escapingFunc(key)...]
 	memo      map[ssa.Value]pathClass
 	busy      map[ssa.Value]bool
+	hitBusy   bool   // a value under classification was met again: results computed meanwhile are provisional
 	staging   string // constant value of the staging directory name
 	// the unexported fields of fsstore.Store, found by their types: the base path (the string), the escaping
 	// function (string -> string) and the sharding function (key, *[]string)
 	baseF, escF, shardF string
+	cfgT                string // the struct type that holds them: Store, or the unexported configuration struct Store holds
 }
 
 func gatherFS(p *core.Program) *fsFacts {
@@ -75,19 +98,37 @@ func gatherFS(p *core.Program) *fsFacts {
 		}
 	}
 	st := p.NamedType("storage/fsstore", "Store")
-	f.baseF = oneField(st, func(v *types.Var) bool { return isString(v.Type()) })
-	f.escF = oneField(st, func(v *types.Var) bool {
+	isEsc := func(v *types.Var) bool {
 		sig, ok := v.Type().Underlying().(*types.Signature)
 		return ok && sig.Params().Len() == 1 && sig.Results().Len() == 1 && isString(sig.Params().At(0).Type()) && isString(sig.Results().At(0).Type())
-	})
-	f.shardF = oneField(st, func(v *types.Var) bool {
+	}
+	isShard := func(v *types.Var) bool {
 		sig, ok := v.Type().Underlying().(*types.Signature)
 		if !ok || sig.Params().Len() != 2 || sig.Results().Len() != 0 {
 			return false
 		}
 		_, isPtr := sig.Params().At(1).Type().Underlying().(*types.Pointer)
 		return isString(sig.Params().At(0).Type()) && isPtr
-	})
+	}
+	// the configuration lives in Store itself, or bundled in one unexported struct that Store holds (by value or pointer)
+	f.cfgT = "Store"
+	owner := st
+	if st != nil && oneField(st, isEsc) == "" {
+		if sst, ok := st.Underlying().(*types.Struct); ok {
+			for i := 0; i < sst.NumFields(); i++ {
+				ft := sst.Field(i).Type()
+				if pt, ok := ft.Underlying().(*types.Pointer); ok {
+					ft = pt.Elem()
+				}
+				if nt := namedOfType(ft); nt != nil && nt.Obj().Pkg() == st.Obj().Pkg() && oneField(nt, isEsc) != "" {
+					owner, f.cfgT = nt, nt.Obj().Name()
+				}
+			}
+		}
+	}
+	f.baseF = oneField(owner, func(v *types.Var) bool { return isString(v.Type()) })
+	f.escF = oneField(owner, isEsc)
+	f.shardF = oneField(owner, isShard)
 	return f
 }
 
@@ -103,7 +144,7 @@ func (f *fsFacts) analyseKeyToPath(c *core.Ctx) {
 	for _, fn := range f.fns {
 		var shardCalls []*ssa.Call
 		for _, ci := range core.Calls(fn) {
-			if cv := core.CallValue(ci); cv != nil && fieldFuncCall(ci, "Store", f.shardF) {
+			if cv := core.CallValue(ci); cv != nil && fieldFuncCall(ci, f.cfgT, f.shardF) {
 				shardCalls = append(shardCalls, cv)
 			}
 		}
@@ -118,7 +159,7 @@ func (f *fsFacts) analyseKeyToPath(c *core.Ctx) {
 			}
 			arg := core.Strip(sc.Call.Args[0])
 			ec, ok := arg.(*ssa.Call)
-			escOK := ok && fieldFuncCall(ec, "Store", f.escF)
+			escOK := ok && fieldFuncCall(ec, f.cfgT, f.escF)
 			if escOK {
 				// the escaping function's argument is a string parameter (the key)
 				_, isParam := core.Strip(ec.Call.Args[0]).(*ssa.Parameter)
@@ -137,7 +178,7 @@ func (f *fsFacts) analyseKeyToPath(c *core.Ctx) {
 					switch x := in.(type) {
 					case *ssa.Store:
 						if ia, ok := x.Addr.(*ssa.IndexAddr); ok && isSlotLoad(ia.X) {
-							if i, isC := core.ConstInt(ia.Index); isC && i == 0 && core.IsFieldRef(x.Val, "Store", f.baseF) {
+							if i, isC := core.ConstInt(ia.Index); isC && i == 0 && core.IsFieldRef(x.Val, f.cfgT, f.baseF) {
 								hasBase = true
 							} else {
 								foreign = true // any other element store is not part of the accepted shape
@@ -153,7 +194,7 @@ func (f *fsFacts) analyseKeyToPath(c *core.Ctx) {
 						}
 					case ssa.CallInstruction:
 						for _, a := range x.Common().Args {
-							if a == ssa.Value(slot) && !fieldFuncCall(x, "Store", f.shardF) {
+							if a == ssa.Value(slot) && !fieldFuncCall(x, f.cfgT, f.shardF) {
 								foreign = true
 							}
 						}
@@ -183,18 +224,24 @@ func (f *fsFacts) classifyResult(cal *ssa.Function, idx int) pathClass {
 			if core.IsZeroMarker(rv) {
 				continue
 			}
-			c2 := f.classify(rv)
-			if cls == -1 {
-				cls = c2
-			} else if cls != c2 {
-				cls = pcOther
-			}
+			c2 := f.classifyB(rv)
+			cls = joinPC(cls, c2)
 		}
 	}
 	if cls == -1 {
 		return pcOther
 	}
 	return cls
+}
+
+// inPkgOrClosure: fn is a function of the package or a closure inside one.
+func (f *fsFacts) inPkgOrClosure(fn *ssa.Function) bool {
+	for g := fn; g != nil; g = g.Parent() {
+		if f.inPkg[g] {
+			return true
+		}
+	}
+	return false
 }
 
 func isString(t types.Type) bool {
@@ -204,17 +251,33 @@ func isString(t types.Type) bool {
 
 // classify determines the provenance class of a string value used as a path.
 func (f *fsFacts) classify(v ssa.Value) pathClass {
+	c := f.classifyB(v)
+	if c == pcBottom {
+		return pcOther
+	}
+	return c
+}
+
+// classifyB is classify that may answer pcBottom for a value whose class is being established further up (a helper
+// that calls itself with a value derived from its own parameter): the joins above it ignore that operand.
+func (f *fsFacts) classifyB(v ssa.Value) pathClass {
 	v = core.Strip(v)
 	if c, ok := f.memo[v]; ok {
 		return c
 	}
 	if f.busy[v] {
-		return pcDestDir // recursion through haveDir(filepath.Dir(pth)): assume the class being established; joined with other call sites below
+		f.hitBusy = true
+		return pcBottom
 	}
 	f.busy[v] = true
 	c := f.classify1(v)
 	delete(f.busy, v)
-	f.memo[v] = c
+	if len(f.busy) == 0 {
+		f.hitBusy = false
+		f.memo[v] = c
+	} else if !f.hitBusy {
+		f.memo[v] = c
+	}
 	return c
 }
 
@@ -229,7 +292,7 @@ func (f *fsFacts) classify1(v ssa.Value) pathClass {
 		}
 	case *ssa.UnOp:
 		if x.Op == token.MUL {
-			if core.IsFieldRef(x, "Store", f.baseF) {
+			if core.IsFieldRef(x, f.cfgT, f.baseF) {
 				return pcBase
 			}
 			if fa, ok := x.X.(*ssa.FieldAddr); ok {
@@ -268,11 +331,7 @@ func (f *fsFacts) classify1(v ssa.Value) pathClass {
 					} else {
 						c2 = f.classify(b)
 					}
-					if cls == -1 {
-						cls = c2
-					} else if cls != c2 {
-						cls = pcOther
-					}
+					cls = joinPC(cls, c2)
 				}
 			})
 		}
@@ -298,7 +357,7 @@ func (f *fsFacts) classify1(v ssa.Value) pathClass {
 			isBase := false
 			for _, ref := range *x.Referrers() {
 				if stI, ok := ref.(*ssa.Store); ok {
-					if fa, ok := stI.Addr.(*ssa.FieldAddr); ok && core.FieldName(fa) == "Store."+f.baseF {
+					if fa, ok := stI.Addr.(*ssa.FieldAddr); ok && core.FieldName(fa) == f.cfgT+"."+f.baseF {
 						isBase = true
 					}
 				}
@@ -309,9 +368,9 @@ func (f *fsFacts) classify1(v ssa.Value) pathClass {
 				for _, g := range f.fns {
 					for _, gg := range core.WithClosures(g) {
 						for _, ci := range core.Calls(gg) {
-							if ci.Common().StaticCallee() == fn && idx < len(ci.Common().Args) {
+							if a := core.ArgForParam(ci, idx); a != nil && core.CallsFunc(ci, fn) {
 								sites++
-								if f.classify(ci.Common().Args[idx]) != pcBase {
+								if f.classify(a) != pcBase {
 									allBase = false
 								}
 							}
@@ -333,13 +392,9 @@ func (f *fsFacts) classify1(v ssa.Value) pathClass {
 		for _, g := range f.fns {
 			for _, gg := range core.WithClosures(g) {
 				for _, ci := range core.Calls(gg) {
-					if ci.Common().StaticCallee() == fn && idx < len(ci.Common().Args) {
-						c2 := f.classify(ci.Common().Args[idx])
-						if cls == -1 {
-							cls = c2
-						} else if cls != c2 {
-							cls = pcOther
-						}
+					if a := core.ArgForParam(ci, idx); a != nil && core.CallsFunc(ci, fn) {
+						c2 := f.classifyB(a)
+						cls = joinPC(cls, c2)
 					}
 				}
 			}
@@ -351,12 +406,8 @@ func (f *fsFacts) classify1(v ssa.Value) pathClass {
 	case *ssa.Phi:
 		cls := pathClass(-1)
 		for _, e := range x.Edges {
-			c2 := f.classify(e)
-			if cls == -1 {
-				cls = c2
-			} else if cls != c2 {
-				cls = pcOther
-			}
+			c2 := f.classifyB(e)
+			cls = joinPC(cls, c2)
 		}
 		return cls
 	case *ssa.Extract:
@@ -377,9 +428,11 @@ func (f *fsFacts) classify1(v ssa.Value) pathClass {
 			return pcRandom
 		}
 		if core.IsPkgFunc(x, "path/filepath", "Dir") {
-			switch f.classify(x.Call.Args[0]) {
-			case pcDest, pcDestDir:
+			switch f.classifyB(x.Call.Args[0]) {
+			case pcDest, pcDestDir, pcDestOrDir:
 				return pcDestDir
+			case pcBottom:
+				return pcBottom
 			}
 			return pcOther
 		}
@@ -449,7 +502,7 @@ func boundAlloc(fv *ssa.FreeVar) *ssa.Alloc {
 // fieldStores lists the values stored into field idx of the package's struct type t (anywhere in the package).
 func (f *fsFacts) fieldStores(t types.Type, idx int) []ssa.Value {
 	nt := namedOfType(t)
-	if nt == nil || nt.Obj().Pkg() == nil || core.RelPkg(nt.Obj().Pkg().Path()) != "storage/fsstore" || nt.Obj().Name() == "Store" {
+	if nt == nil || nt.Obj().Pkg() == nil || core.RelPkg(nt.Obj().Pkg().Path()) != "storage/fsstore" || nt.Obj().Name() == "Store" || nt.Obj().Name() == f.cfgT {
 		return nil
 	}
 	var out []ssa.Value
@@ -482,11 +535,7 @@ func (f *fsFacts) classifyStructField(t types.Type, idx int) (pathClass, bool) {
 	cls := pathClass(-1)
 	for _, v := range vals {
 		c2 := f.classify(v)
-		if cls == -1 {
-			cls = c2
-		} else if cls != c2 {
-			cls = pcOther
-		}
+		cls = joinPC(cls, c2)
 	}
 	return cls, true
 }
@@ -503,11 +552,7 @@ func (f *fsFacts) classifyAlloc(al *ssa.Alloc) pathClass {
 			_ = path
 			if root == ssa.Value(al) {
 				c2 := f.classify(st.Val)
-				if cls == -1 {
-					cls = c2
-				} else if cls != c2 {
-					cls = pcOther
-				}
+				cls = joinPC(cls, c2)
 			}
 		})
 	}
@@ -684,6 +729,153 @@ func runC17(c *core.Ctx) {
 			}
 			return fn.Pos()
 		}()), "key used whole", bad+": keys longer than the bound alias one another")
+	}
+
+	c.Rule("C17.escapeuniform", "the escaping functions fsstore installs by itself (functions of the package stored into the escaping field, e.g. by InitDefaults) treat every key alike: every return hands back the result of the same encoding call applied to the key - all returns hand back the key itself, or all hand back the result of one and the same encoding call; never one or the other depending on what the key looks like (a mixed scheme maps a key and the spelled-out encoding of another key to one path)", 1)
+	{
+		f := gatherFS(p)
+		var installed []*ssa.Function
+		seenF := map[*ssa.Function]bool{}
+		for _, g := range f.fns {
+			for _, gg := range core.WithClosures(g) {
+				core.Instrs(gg, func(in ssa.Instruction) {
+					st, ok := in.(*ssa.Store)
+					if !ok {
+						return
+					}
+					fa, ok := st.Addr.(*ssa.FieldAddr)
+					if !ok || core.FieldName(fa) != f.cfgT+"."+f.escF {
+						return
+					}
+					var resolve func(v ssa.Value, depth int)
+					resolve = func(v ssa.Value, depth int) {
+						if depth > 4 {
+							return
+						}
+						var fnv *ssa.Function
+						switch x := core.Strip(v).(type) {
+						case *ssa.Function:
+							fnv = x
+						case *ssa.MakeClosure:
+							fnv, _ = x.Fn.(*ssa.Function)
+						case *ssa.Phi:
+							for _, e := range x.Edges {
+								resolve(e, depth+1)
+							}
+						case *ssa.Parameter:
+							// what the package itself passes for it
+							idx := core.ParamIndex(x)
+							for _, h := range f.fns {
+								for _, hh := range core.WithClosures(h) {
+									for _, ci := range core.Calls(hh) {
+										if a := core.ArgForParam(ci, idx); a != nil && core.CallsFunc(ci, x.Parent()) {
+											resolve(a, depth+1)
+										}
+									}
+								}
+							}
+						}
+						if fnv != nil && f.inPkgOrClosure(fnv) && !seenF[fnv] {
+							seenF[fnv] = true
+							installed = append(installed, fnv)
+						}
+					}
+					resolve(st.Val, 0)
+				})
+			}
+		}
+		// a composite literal of the configuration struct stores the field as well (handled by the loop above: complits
+		// are field stores in SSA)
+		for _, g := range installed {
+			if len(g.Params) == 0 {
+				continue
+			}
+			key := g.Params[len(g.Params)-1]
+			shape := ""
+			bad := ""
+			pos := g.Pos()
+			for _, ret := range core.Returns(g) {
+				for _, rv := range core.ResultValues(ret, 0) {
+					this := "?"
+					if core.Strip(rv) == ssa.Value(key) {
+						this = "the key itself"
+					} else if cl, ok := core.Strip(rv).(*ssa.Call); ok {
+						o := core.CalleeObj(cl)
+						fromKey := false
+						for _, a := range cl.Call.Args {
+							for w := range core.BackSlice(a, core.SliceOpts{Stores: true}) {
+								if w == ssa.Value(key) {
+									fromKey = true
+								}
+							}
+						}
+						if o != nil && fromKey {
+							this = "the result of " + o.FullName() + " applied to the key"
+						}
+					}
+					if this == "?" {
+						bad, pos = "a return hands back something that is neither the key nor the result of an encoding call applied to the key", ret.Pos()
+						continue
+					}
+					if shape == "" {
+						shape = this
+					} else if shape != this {
+						bad, pos = "some returns hand back "+shape+", others "+this, ret.Pos()
+					}
+				}
+			}
+			c.Check(bad == "", core.FuncKey(g)+"#uniform-encoding", p.Pos(pos), "every key goes through the same encoding", bad+": the escaping is not injective across the two shapes of key, so differing keys can alias")
+		}
+		if len(installed) == 0 {
+			c.Undecided("storage/fsstore#installed-escaping", "-", "no function of the package is stored into the escaping field")
+		}
+	}
+
+	c.Rule("C17.streamfresh", "the writer a store hands out for a streaming put (result 0, of type io.Writer, of the stream-opening methods of the storage packages and of cidlink.Memory) is created by that very call - a local buffer or what a call such as os.OpenFile returned - and is never memory of the store itself (the address of one of its fields, a pointer kept in a field, a package-level variable): two streams open at the same time must not write into one buffer", 2)
+	nsf := 0
+	for _, fn := range p.ModFns {
+		pk := core.FuncPkg(fn)
+		if pk == nil || len(fn.Blocks) == 0 || fn.Synthetic != "" || fn.Parent() != nil || fn.Signature.Recv() == nil {
+			continue
+		}
+		rel := core.RelPkg(pk.Path())
+		if !(strings.HasPrefix(rel, "storage/") || rel == "linking/cid") || rel == "storage/tests" || rel == "storage/benchmarks" {
+			continue
+		}
+		res := fn.Signature.Results()
+		if res.Len() < 2 {
+			continue
+		}
+		if nt := namedOfType(res.At(0).Type()); nt == nil || nt.Obj().Name() != "Writer" || nt.Obj().Pkg() == nil || nt.Obj().Pkg().Path() != "io" {
+			continue
+		}
+		nsf++
+		bad := ""
+		pos := fn.Pos()
+		for _, ret := range core.Returns(fn) {
+			for _, rv := range core.ResultValues(ret, 0) {
+				if core.IsNilConst(rv) || core.IsZeroMarker(rv) {
+					continue
+				}
+				for w := range core.BackSlice(rv, core.SliceOpts{Stores: true}) {
+					switch x := w.(type) {
+					case *ssa.FieldAddr:
+						root, _ := rootOfAddr(x)
+						if _, isPrm := core.RegionOf(fn).Canon(root).(*ssa.Parameter); isPrm {
+							bad, pos = "memory of the store ("+core.FieldName(x)+")", ret.Pos()
+						}
+					case *ssa.Global:
+						if p.InModuleGlobal(x) {
+							bad, pos = "package-level variable "+x.Name(), ret.Pos()
+						}
+					}
+				}
+			}
+		}
+		c.Check(bad == "", core.FuncKey(fn)+"#fresh-writer", p.Pos(pos), "each stream gets its own writer", "the writer handed out is "+bad+": a second stream opened before the first is committed writes into the same buffer, and both blocks are stored with mixed content")
+	}
+	if nsf == 0 {
+		c.Undecided("storage#stream-openers", "-", "no stream-opening method found")
 	}
 
 	// the escaping function field is only written by Init-like configuration and is never nil-unsafe: every call of escapingFunc is reached with a field set in Init
@@ -1014,6 +1206,67 @@ func runC18(c *core.Ctx) {
 		}
 	} else {
 		c.Undecided("storage/fsstore.(*Store).Put", "-", "not found")
+	}
+
+	c.Rule("C18.streamcommit", "every function of the storage packages that drives a streaming put - it obtains a writer and a committer from a PutStream-shaped call (results io.Writer, func(string) error, error) and writes to that writer - can reach a committing call (the committer with anything but the constant empty key) only over the nil edge of every Write's error: a block whose write failed midway is never committed under its key", 2)
+	nstream := 0
+	for _, fn := range p.ModFns {
+		pk := core.FuncPkg(fn)
+		if pk == nil || len(fn.Blocks) == 0 || fn.Synthetic != "" || fn.Parent() != nil {
+			continue
+		}
+		rel := core.RelPkg(pk.Path())
+		if !(rel == "storage" || strings.HasPrefix(rel, "storage/")) || rel == "storage/tests" || rel == "storage/benchmarks" {
+			continue
+		}
+		for _, ci := range core.Calls(fn) {
+			psv := core.CallValue(ci)
+			if psv == nil {
+				continue
+			}
+			res, ok := psv.Type().(*types.Tuple)
+			if !ok || res.Len() != 3 || !core.IsErrorType(res.At(2).Type()) {
+				continue
+			}
+			if nt := namedOfType(res.At(0).Type()); nt == nil || nt.Obj().Name() != "Writer" || nt.Obj().Pkg() == nil || nt.Obj().Pkg().Path() != "io" {
+				continue
+			}
+			if sig, ok := res.At(1).Type().Underlying().(*types.Signature); !ok || sig.Params().Len() != 1 || !isString(sig.Params().At(0).Type()) {
+				continue
+			}
+			var writes []*ssa.Call
+			for _, cj := range core.Calls(fn) {
+				if cv := core.CallValue(cj); cv != nil && core.IsMethodNamed(cj, "Write") && extractOf(core.Receiver(cj), psv, 0) {
+					writes = append(writes, cv)
+				}
+			}
+			if len(writes) == 0 {
+				continue
+			}
+			for _, cj := range core.Calls(fn) {
+				if cj.Common().IsInvoke() || cj.Common().StaticCallee() != nil || !extractOf(cj.Common().Value, psv, 1) {
+					continue
+				}
+				if s0, isS := core.ConstString(cj.Common().Args[0]); isS && s0 == "" {
+					continue // the abort
+				}
+				nstream++
+				bad := false
+				var wp []string
+				for _, w := range writes {
+					w := w
+					nilEdges := core.EdgesWhere(fn, func(r core.Rel) bool { return r.Op == token.EQL && extractOf(r.X, w, 1) && core.IsNilConst(r.Y) })
+					if path, reached := core.Reach(fn, w, isTarget(cj), nilEdges, func(in ssa.Instruction) bool { return in == ssa.Instruction(w) }); reached || len(nilEdges) == 0 {
+						bad = true
+						wp = p.Witness(path)
+					}
+				}
+				c.Check(!bad, core.FuncKey(fn)+"#commit-only-after-ok-writes", p.Pos(cj.Pos()), "commit only after every Write succeeded", "the committer is reachable with the block's key after a Write that failed (or whose error was never tested): a partially written block is committed and readers see truncated content under the key", wp...)
+			}
+		}
+	}
+	if nstream == 0 {
+		c.Undecided("storage#streaming-puts", "-", "no function of the storage packages drives a streaming put (PutVec / Put were expected)")
 	}
 }
 
